@@ -83,6 +83,23 @@ def gen_cases(rng, tier):
                 sp["objective"].append(["sum", ["*", ["DTc"], ["sq", xl]]])
                 sp["constraints"].append({"cid": 100 * (k + 1) + 50, "form": "le", "grid": "integrator",
                                           "lhs": [["*", ["DT"], xl]], "rhs": [["c", ocpgen.rnd(rng, 0.5, 2.0)]]})
+        # guesses given on the stages (for clones: on the template): a constant for a state, the horizon
+        for k, sp in enumerate(stages):
+            if mode == "clone" and k > 0:
+                sp["stage_guesses"] = copy.deepcopy(stages[0]["stage_guesses"])
+                continue
+            sp["stage_guesses"] = []
+            if rng.random() < 0.6:
+                cand_ = [s_ for s_ in sp["states"] if not s_.get("quad")]
+                sp["stage_guesses"].append({"target": rng.choice(cand_)["name"], "val": ocpgen.rnd(rng, -2, 2)})
+                hz = template_h if mode == "clone" else sp
+                for key in ("T", "t0"):
+                    # (a clone that overrides the horizon: a number cannot take the template's guess -- rockit raises --
+                    # and with FreeTime(guess) two guesses compete; kept out)
+                    if hz[key]["kind"] == "free" and rng.random() < 0.7 and not (
+                            mode == "clone" and any(q[key].get("override") for q in stages)):
+                        sp["stage_guesses"].append({"target": key, "val": ocpgen.rnd(rng, 0.3, 3.0, 3) if key == "T"
+                                                    else ocpgen.rnd(rng, -2, 2, 3)})
         couplings = []
         for k in range(nst - 1):
             a, b_ = stages[k], stages[k + 1]
@@ -124,6 +141,8 @@ def declare_stage_content(b, with_method=True, skip_horizon=False):
         build.declare_constraint(b, c)
     build.declare_objective(b)
     build.declare_values(b)
+    for g in b.spec.get("stage_guesses", []):
+        b.stage.set_initial(build.guess_target(b, g), g["val"])
     if with_method:
         b.stage.method(build.make_method(b.spec["method"]))
 
@@ -486,6 +505,31 @@ def run_case(case):
                         "detail": "perturbing the variables of stage %d changed rows %s that belong to stage %d only" % (
                             i, sorted(changed & rows_j)[:5], j)})
                     return res
+    # guesses given on a stage (or on its template) are where that stage starts
+    for k, (b, rb) in enumerate(zip(builts, rbs)):
+        gs = b.spec.get("stage_guesses") or []
+        if not gs:
+            continue
+        ph = rb(view.x0, view.p0)
+        for g in gs:
+            if g["target"] in ("T", "t0"):
+                if b.spec[g["target"]]["kind"] != "free" or b.spec[g["target"]].get("override"):
+                    continue
+                got = np.array([ph[g["target"]]], dtype=float)
+            else:
+                got = np.asarray(ph["xc:" + g["target"]], dtype=float)
+                if b.spec["method"]["cls"] == "SS":
+                    got = got[:1]
+            res["evals"] += 1
+            res["counters"]["stage_guesses"] = res["counters"].get("stage_guesses", 0) + 1
+            if not np.allclose(got, g["val"], rtol=1e-12, atol=1e-12):
+                res["violations"].append({
+                    "kind": "stage-guess", "mech": "C12|stage-guess-not-applied|%s|%s" % (
+                        "horizon" if g["target"] in ("T", "t0") else "state", case["mode"]),
+                    "detail": "stage %d: guess %g for %s given on the %s, the stage starts at %s" % (
+                        k, g["val"], g["target"], "template" if case["mode"] == "clone" else "stage",
+                        C.short(got.reshape(-1)[:4]))})
+                return res
     # numeric read-back per stage
     if case.get("solve") and all(b.spec["method"].get("intg") in (None, "rk", "expl_euler") for b in builts):
         try:
